@@ -23,6 +23,7 @@ type State struct {
 // touched memory M sees the version determined by its epoch: the function-entry
 // version, a havoc-all version, or a merge of predecessor epochs.
 type Epoch struct {
+	wm       string // watermark at the time of a havoc (for well-formedness of stored values)
 	id       int
 	kind     string // entry, havoc, merge
 	preds    []*Epoch
@@ -43,6 +44,23 @@ func (vc *VC) newEpoch(kind string, preds []*Epoch, conds []string) *Epoch {
 	return &Epoch{id: vc.epochCtr, kind: kind, preds: preds, conds: conds, resolved: map[string]string{}}
 }
 
+// memWF: every value stored in a (declared, i.e. unconstrained) memory version is a
+// well-formed Go value: slice headers are sane, pointers are allocated, integers in range.
+func (vc *VC) memWF(name, ver, wm string) string {
+	t, ok := vc.enc.mems[name]
+	if !ok {
+		return ""
+	}
+	if _, isMapMem := vc.enc.mapMemSorts[name]; isMapMem {
+		return ""
+	}
+	wf := vc.enc.wellFormed(fmt.Sprintf("(select %s p)", ver), t, wm)
+	if wf == "true" {
+		return ""
+	}
+	return fmt.Sprintf("\n(assert (forall ((p Ptr)) (! %s :pattern ((select %s p)))))", wf, ver)
+}
+
 func (vc *VC) resolveEpoch(ep *Epoch, name, sort string) string {
 	if v, ok := ep.resolved[name]; ok {
 		return v
@@ -51,10 +69,17 @@ func (vc *VC) resolveEpoch(ep *Epoch, name, sort string) string {
 	switch ep.kind {
 	case "entry":
 		v = "|" + name + "@entry|"
-		vc.enc.addPre("mem:"+name, fmt.Sprintf("(declare-const %s %s)", v, sort))
+		vc.enc.addPre("mem:"+name, fmt.Sprintf("(declare-const %s %s)", v, sort)+vc.memWF(name, v, "wm@entry"))
 	case "havoc":
 		v = fmt.Sprintf("|%s@h%d|", name, ep.id)
-		vc.enc.addPre(fmt.Sprintf("mem:%s@h%d", name, ep.id), fmt.Sprintf("(declare-const %s %s)", v, sort))
+		wm := ep.wm
+		if wm == "" {
+			wm = "wm@entry"
+		}
+		vc.emit(fmt.Sprintf("(declare-const %s %s)", v, sort))
+		if wf := vc.memWF(name, v, wm); wf != "" {
+			vc.emit(strings.TrimSpace(wf))
+		}
 	case "formal":
 		v = "|fm." + name + "|"
 	case "merge":
@@ -172,6 +197,8 @@ type VC struct {
 	recSpecs map[string]*recSpecInfo
 	nameCount map[string]int
 	lemma     *Lemma
+	uses      []string
+	memDefs   map[string][2]string
 	entryCtx  *SpecCtx
 	lemmaPkg  *ssa.Package
 	noSafety bool
@@ -256,7 +283,13 @@ func (vc *VC) load(st *State, p string, t types.Type) string {
 		vc.errorf("load of array value %s unsupported", t)
 		return e.zero(t)
 	}
-	return fmt.Sprintf("(select %s %s)", vc.memAt(st, t), p)
+	m := vc.memAt(st, t)
+	// read-after-write of the same cell: resolve syntactically, so that quantifier
+	// patterns over the loaded value see the stored term itself
+	if d, ok := vc.memDefs[m]; ok && d[0] == p {
+		return d[1]
+	}
+	return fmt.Sprintf("(select %s %s)", m, p)
 }
 
 func (vc *VC) store(st *State, p string, t types.Type, v string) {
@@ -275,6 +308,10 @@ func (vc *VC) store(st *State, p string, t types.Type, v string) {
 	name := e.memFor(t)
 	cur := vc.memAt(st, t)
 	st.mem[name] = vc.def(name, e.memSort(t), fmt.Sprintf("(store %s %s %s)", cur, p, v))
+	if vc.memDefs == nil {
+		vc.memDefs = map[string][2]string{}
+	}
+	vc.memDefs[st.mem[name]] = [2]string{p, v}
 }
 
 // leafCells enumerates the scalar cells of a value of type t: (field path function, cell type)
